@@ -30,6 +30,8 @@ LEVEL_TEXT = (
 LEVEL_NOTE = (
     "Trusted: the `cryptography` AES primitive, CPython. Judged: exactly one telegram delivered, payload equal (object and "
     "octets), data_secure flag, source/destination/TPCI. Not judged: Telegram.direction, counters. Sender and receiver "
+    "Restart runs: senders take their start counter from the real initialisation path under a harness-owned wall clock "
+    "(module-level `time` of xknx.secure.data_secure rebound and restored), frames at least 2 ms apart. Sender and receiver "
     "are both xknx, so a symmetric deviation from the standard is invisible here (that is C19)."
 )
 SHARDS = {"quick": 1, "thorough": 16}
@@ -132,6 +134,90 @@ def _one(ctx, loop, spec):
         ctx.sample({"kind": kind, "path": path, "seq": seq, "apdu_len": len(apdu) - 1, "raw": raw[:48], "delivered": repr(t.payload)[:80]})
 
 
+class _WallClock:
+    """Stands in for the module-level `time` of xknx.secure.data_secure (the harness owns wall time)."""
+
+    def __init__(self, now):
+        self.now = now
+
+    def time(self):
+        return self.now
+
+
+OFFSETS = (0.0, 0.001, 0.010, 0.5, 0.999, 1.0, 2.0)
+
+
+def _restart_case(ctx, loop, spec):
+    """Sender instances created through the real initialisation (no explicit counter), re-created later, same receiver."""
+    import xknx.secure.data_secure as dsmod
+
+    key = bytes.fromhex(spec["key"])
+    sa, da = spec["sa"], spec["da"]
+    clock = _WallClock(spec["t0"])
+    saved = dsmod.time
+    dsmod.time = clock
+    counters = []
+    try:
+        receiver = Node({da: key}, {sa: 0}, own_address=spec["rx"])
+        for session, (offset, nframes) in enumerate(spec["sessions"]):
+            clock.now += offset
+            sender = Node({da: key}, {}, own_address=sa, last_seq_sending=None)  # DataSecure takes its start value from the clock
+            ctx.count("sender_sessions_started_from_clock")
+            for i in range(nframes):
+                clock.now += spec["gap"]  # the bus carries well below one frame per millisecond
+                payload = group_payload(_PRng(spec["pseed"] + 31 * session + i), 1 + (i % 3))
+                telegram = Telegram(destination_address=GroupAddress(da), payload=payload)
+                raw = sender.secure_sync(telegram) if spec["path"] == "sync" else loop.run(sender.send(telegram), max_vtime=30)
+                out = receiver.feed(raw)
+                ctx.ev()
+                ctx.count("restart_frames")
+                counters.append(seq_of(raw))
+                wit = {"spec": spec, "session": session, "frame": i, "offset_before_session": offset, "counters_so_far": counters,
+                       "raw": raw, "outcome": out.kind()}
+                ctx.distinct(("restart", session > 0, offset, out.kind()))
+                if out.exc is not None:
+                    ctx.violation(f"receiver-raises-{type(out.exc).__name__}", wit, "receiver raised")
+                    return
+                ok = len(out.delivered) == 1 and bytes(out.delivered[0].payload.to_knx()) == bytes(payload.to_knx())
+                if not ok:
+                    reused = session > 0 and counters[-1] <= max(counters[:-1])
+                    ctx.violation(
+                        "frame-of-restarted-sender-not-delivered-counter-reused" if reused else "frame-of-restarted-sender-not-delivered",
+                        wit,
+                        f"sender re-initialised {offset}s after its last frame: frame with counter {counters[-1]} not delivered "
+                        f"(counters so far {counters[-6:]})")
+                    return
+                ctx.count("restart_frames_delivered")
+                if session > 0:
+                    ctx.count(f"delivered_after_restart_offset_{offset}")
+    finally:
+        dsmod.time = saved
+    if len(ctx.samples) < 7:
+        ctx.sample({"restart_offsets": [o for o, _ in spec["sessions"]], "counters": counters})
+
+
+class _PRng:
+    def __init__(self, seed):
+        import random
+
+        self._r = random.Random(seed)
+
+    def __getattr__(self, name):
+        return getattr(self._r, name)
+
+
+def _restart_spec(rng, offset):
+    sa = rng.randrange(1, 0x10000)
+    sessions = [(0.0, rng.randrange(1, 6)), (offset, rng.randrange(1, 5))]
+    if rng.random() < 0.4:
+        sessions.append((rng.choice(OFFSETS), rng.randrange(1, 4)))
+    return {"key": rng.randbytes(16).hex(), "sa": sa, "da": rng.randrange(1, 0x10000), "rx": (sa % 0xFFFF) + 1,
+            # a wall clock reading between 2024 and 2030, anywhere within its second
+            "t0": 1_704_067_200 + rng.randrange(0, 6 * 365 * 86400) + rng.choice((0.0, 0.0005, rng.random(), 0.9985)),
+            "gap": rng.choice((0.002, 0.005, 0.05)), "sessions": sessions, "path": rng.choice(("sync", "send")),
+            "pseed": rng.randrange(1 << 30)}
+
+
 def _spec(ctx, rng, kind, path, payload):
     sa = rng.randrange(1, 0x10000)
     da = 0 if kind == "broadcast" else rng.randrange(1, 0x10000)
@@ -166,7 +252,9 @@ def run(ctx):
         "SecureData.init_from_plain_apdu (authentication only / encryption); distinct = (kind, path, APDU octets, counter size class, outcome)"
     )
     ctx.require("roundtrips_ok", "frames_sync", "frames_send", "frames_auth", "frames_enc-api", "kind_group", "kind_broadcast",
-                "kind_tag", "delivered_via_queue", "delivered_via_management")
+                "kind_tag", "delivered_via_queue", "delivered_via_management", "sender_sessions_started_from_clock", "restart_frames_delivered",
+                "delivered_after_restart_offset_0.0", "delivered_after_restart_offset_0.001", "delivered_after_restart_offset_0.999",
+                "delivered_after_restart_offset_2.0")
     reps = ctx.scale(3, 300)
     loop = new_loop()
     idx = 0
@@ -184,6 +272,13 @@ def run(ctx):
                             else:
                                 path = ("sync", "send", "enc-api")[(length + rep + KINDS.index(kind)) % 3]
                             _one(ctx, loop, _spec(ctx, rng, kind, path, group_payload(rng, length)))
+            # senders initialised from the wall clock and re-initialised shortly afterwards (interface stop / start)
+            for rep in range(ctx.scale(40, 3000)):
+                for offset in OFFSETS:
+                    idx += 1
+                    spec = _restart_spec(rng, offset)
+                    if ctx.mine((idx * 0x9E3779B1) >> 12):
+                        _restart_case(ctx, loop, spec)
             # other services (management style APDUs are what broadcast / tag frames carry in practice)
             if ctx.shard == 0 or not ctx.quick:
                 for payload in other_service_payloads(rng, ctx.scale(60, 40)):
@@ -200,7 +295,10 @@ def replay(ctx, witness):
     loop = new_loop()
     try:
         with observing_management():
-            _one(ctx, loop, witness["spec"])
+            if "sessions" in witness["spec"]:
+                _restart_case(ctx, loop, witness["spec"])
+            else:
+                _one(ctx, loop, witness["spec"])
             ctx.distinct("replay")
             ctx.distinct("replay2")
     finally:
